@@ -17,4 +17,5 @@ CONSTANTS
   MaxSweep = 0
   MaxLeave = 0
   MaxPubB = 0
+  MaxCmd = 0
 PROPERTY EventuallyClosed
